@@ -126,3 +126,358 @@ Proof.
       rewrite (IH cK pk idx Hidx); try assumption; try (destruct pk; exact Hpk).
       unfold pkc_of, first_pk, unique_indexes. cbn [filter is_pk flat_map app]. reflexivity.
 Qed.
+
+(* ---------- the FOREIGN KEY clauses: when the engine accepts them, it adds exactly the implicit indexes that
+   generated_indexes computes ---------- *)
+Lemma key_col_lists_snoc : forall n cs pk idx fks chk i,
+  key_col_lists (mkMTable n cs pk (idx ++ [i]) fks chk) = key_col_lists (mkMTable n cs pk idx fks chk) ++ [ix_cols i].
+Proof. intros. unfold key_col_lists. cbn [tb_pk tb_indexes]. rewrite map_app. cbn [map]. rewrite app_assoc. reflexivity. Qed.
+
+Lemma add_fks_result : forall fks tb c tb',
+  add_fks tb c fks = Ok tb' ->
+  tb' = mkMTable (tb_name tb) (tb_cols tb) (tb_pk tb)
+                 (tb_indexes tb ++ generated_indexes (key_col_lists tb) fks) (tb_fks tb ++ fks) (tb_checks tb).
+Proof.
+  induction fks as [|f r IH]; intros tb c tb' H.
+  - cbn [add_fks] in H. inversion H; subst. cbn [generated_indexes]. rewrite !app_nil_r. destruct tb' as [n cs pk idx fk0 chk]; reflexivity.
+  - cbn [add_fks] in H. destruct (add_fk tb c f) as [t1|e] eqn:A; [|discriminate].
+    unfold add_fk in A.
+    destruct (mem_str (fk_name f) (all_fk_names c) || mem_str (fk_name f) (map fk_name (tb_fks tb)))%bool; [discriminate|].
+    destruct (negb (nonempty (fk_cols f) && Nat.eqb (List.length (fk_cols f)) (List.length (fk_rcols f)))%bool); [discriminate|].
+    destruct (negb (all_cols_exist (fk_cols f) tb)); [discriminate|].
+    destruct (if String.eqb (fk_rtable f) (tb_name tb) then Some tb else find_tb (fk_rtable f) c) as [rt|]; [|discriminate].
+    destruct (negb (all_cols_exist (fk_rcols f) rt)); [discriminate|].
+    destruct (negb (covered (fk_rcols f) rt)); [discriminate|].
+    inversion A; subst t1. clear A.
+    rewrite (IH _ c tb' H). cbn [tb_name tb_cols tb_pk tb_indexes tb_fks tb_checks].
+    cbn [generated_indexes]. unfold covered.
+    destruct (nonempty (fk_cols f) && existsb (is_prefix (fk_cols f)) (key_col_lists tb))%bool eqn:Cv.
+    + destruct tb as [n cs pk idx fk0 chk]. cbn [tb_name tb_cols tb_pk tb_indexes tb_fks tb_checks]. rewrite <- app_assoc. reflexivity.
+    + destruct tb as [n cs pk idx fk0 chk]. cbn [tb_name tb_cols tb_pk tb_indexes tb_fks tb_checks].
+      rewrite key_col_lists_snoc. cbn [ix_cols]. rewrite <- !app_assoc. reflexivity.
+Qed.
+
+(* ---------- repeated key additions and the implicit indexes ---------- *)
+Lemma generated_add_keys : forall pcs K fks,
+  forallb (fun f => nonempty (fk_cols f)) fks = true ->
+  generated_indexes (K ++ pcs) fks
+  = fold_left (fun g c => drop_redundant_generated c g) pcs (generated_indexes K fks).
+Proof.
+  induction pcs as [|c r IH]; intros K fks Hne.
+  - rewrite app_nil_r. reflexivity.
+  - cbn [fold_left]. change (K ++ c :: r) with (K ++ [c] ++ r). rewrite app_assoc. rewrite (IH (K ++ [c]) fks Hne). f_equal.
+    apply generated_add_key; [exact Hne|]. intro x. rewrite existsb_app. cbn [existsb]. rewrite Bool.orb_false_r. reflexivity.
+Qed.
+
+Lemma fold_drop_generated : forall pcs G i,
+  In i (fold_left (fun g c => drop_redundant_generated c g) pcs G) -> In i G.
+Proof.
+  induction pcs as [|c r IH]; intros G i H; [exact H|]. cbn [fold_left] in H. apply IH in H.
+  unfold drop_redundant_generated in H. apply filter_In in H. apply H.
+Qed.
+
+(* ---------- auto column ---------- *)
+Lemma auto_by_pk_ok : forall n cs pk idx fks chk idx' fks' chk',
+  auto_by_pk (mkMTable n cs pk idx fks chk) = true -> auto_ok (mkMTable n cs pk idx' fks' chk') = true.
+Proof.
+  intros n cs pk idx fks chk idx' fks' chk' H. unfold auto_by_pk, auto_ok in *. cbn [tb_cols tb_pk] in *.
+  destruct (filter mc_auto cs) as [|a [|b l]]; try reflexivity; try discriminate.
+  destruct pk as [[|x p]|]; try discriminate. unfold key_col_lists. cbn [tb_pk tb_indexes app existsb]. rewrite H. reflexivity.
+Qed.
+
+(* ---------- the CREATE INDEX statements that follow CREATE TABLE ---------- *)
+Lemma find_tb_last : forall t cat tb, has_tb t cat = false -> tb_name tb = t -> find_tb t (cat ++ [tb]) = Some tb.
+Proof.
+  intros t cat tb H Hn. unfold has_tb, find_tb in *. induction cat as [|x r IH]; cbn [app find] in *.
+  - rewrite Hn, String.eqb_refl. reflexivity.
+  - destruct (String.eqb (tb_name x) t); [discriminate|]. apply IH. exact H.
+Qed.
+Lemma replace_tb_last : forall t cat tb tb', has_tb t cat = false -> tb_name tb = t ->
+  replace_tb tb' t (cat ++ [tb]) = cat ++ [tb'].
+Proof.
+  intros t cat tb tb' H Hn. unfold has_tb, find_tb, replace_tb in *. induction cat as [|x r IH]; cbn [app map find] in *.
+  - rewrite Hn, String.eqb_refl. reflexivity.
+  - destruct (String.eqb (tb_name x) t); [discriminate|]. f_equal. apply IH. exact H.
+Qed.
+
+Definition plain_cols (ks : list table_constraint) : list (list string) :=
+  flat_map (fun k => match k with CIndex _ cols => [cols] | _ => [] end) ks.
+
+Lemma plain_cols_map : forall t ks, map ix_cols (plain_indexes t ks) = plain_cols ks.
+Proof.
+  intros t ks. unfold plain_indexes, plain_cols. induction ks as [|k r IH]; [reflexivity|].
+  cbn [flat_map]. rewrite map_app, IH. destruct k; reflexivity.
+Qed.
+
+Lemma mem_names_filter : forall nm (p : mindex -> bool) l,
+  mem_str nm (map ix_name l) = false -> mem_str nm (map ix_name (filter p l)) = false.
+Proof.
+  intros nm p l. unfold mem_str. induction l as [|x r IH]; intro H; [reflexivity|].
+  cbn [map existsb] in H. apply Bool.orb_false_iff in H. destruct H as [H1 H2].
+  cbn [filter]. destruct (p x); cbn [map existsb]; [rewrite H1|]; apply IH; exact H2.
+Qed.
+
+Lemma run_create_indexes : forall t ks cat cs pk U PlK G fks chk,
+  has_tb t cat = false ->
+  (forall i, In i U -> ix_unique i = true /\ ix_generated i = false) ->
+  (forall i, In i PlK -> ix_unique i = false /\ ix_generated i = false) ->
+  (forall i, In i G -> ix_generated i = true) ->
+  forallb (fun k => match k with CIndex _ cols => (nonempty cols && all_cols_exist cols (mkMTable "" cs None [] [] []))%bool | _ => true end) ks = true ->
+  nodup_str (map ix_name (plain_indexes t ks)) = true ->
+  forallb (fun nm => negb (mem_str nm (map ix_name (U ++ PlK ++ G)))) (map ix_name (plain_indexes t ks)) = true ->
+  mem_str "PRIMARY" (map ix_name (plain_indexes t ks)) = false ->
+  auto_by_pk (mkMTable t cs pk [] [] []) = true ->
+  run (cat ++ [mkMTable t cs pk (U ++ PlK ++ G) fks chk]) (create_indexes t ks)
+  = RunOk (cat ++ [mkMTable t cs pk (U ++ (PlK ++ plain_indexes t ks)
+                                      ++ fold_left (fun g c => drop_redundant_generated c g) (plain_cols ks) G) fks chk]).
+Proof.
+  intros t ks. induction ks as [|k r IH]; intros cat cs pk U PlK G fks chk Hcat HU HP HG Hval Hdist Hdisj Hnp Hauto.
+  - cbn [create_indexes flat_map plain_indexes plain_cols fold_left]. rewrite app_nil_r. reflexivity.
+  - cbn [forallb] in Hval. apply Bool.andb_true_iff in Hval. destruct Hval as [Hk Hr].
+    destruct k as [| | | |inn icols];
+      try (cbn [create_indexes flat_map app plain_indexes plain_cols] in *; apply IH; assumption).
+    cbn [create_indexes flat_map app]. fold (create_indexes t r).
+    set (name := build_index_name t icols inn).
+    cbn [plain_indexes flat_map app map ix_name] in Hdist, Hdisj, Hnp. fold (plain_indexes t r) in Hdist, Hdisj, Hnp. fold name in Hdist, Hdisj, Hnp.
+    cbn [nodup_str] in Hdist. apply Bool.andb_true_iff in Hdist. destruct Hdist as [Hnew Hdist]. apply Bool.negb_true_iff in Hnew.
+    cbn [forallb] in Hdisj. apply Bool.andb_true_iff in Hdisj. destruct Hdisj as [Hfr Hdisj]. apply Bool.negb_true_iff in Hfr.
+    set (new := mkMIndex name icols false false).
+    set (G' := drop_redundant_generated icols G).
+    assert (HG' : forall i, In i G' -> ix_generated i = true).
+    { intros i Hi. unfold G', drop_redundant_generated in Hi. apply filter_In in Hi. apply HG. apply Hi. }
+    assert (E : exec (cat ++ [mkMTable t cs pk (U ++ PlK ++ G) fks chk]) (SCreateIndex false name t icols)
+                = Ok (cat ++ [mkMTable t cs pk (U ++ (PlK ++ [new]) ++ G') fks chk])).
+    { cbn [exec]. unfold with_tb. rewrite (find_tb_last t cat (mkMTable t cs pk (U ++ PlK ++ G) fks chk) Hcat eq_refl). unfold set_tb, add_index.
+      assert (Hfresh : has_index name (mkMTable t cs pk (U ++ PlK ++ G) fks chk) = false).
+      { unfold has_index. cbn [tb_indexes]. unfold mem_str in Hfr. rewrite existsb_map in Hfr. rewrite <- Hfr.
+        apply existsb_ext_in. intros i _. apply String.eqb_sym. }
+      rewrite Hfresh.
+      assert (Hnp1 : String.eqb name "PRIMARY" = false).
+      { unfold mem_str in Hnp. cbn [existsb] in Hnp. apply Bool.orb_false_iff in Hnp. destruct Hnp as [H1 _]. rewrite String.eqb_sym. exact H1. }
+      rewrite Hnp1. cbn [orb]. rewrite all_cols_exist_indep, Hk. cbn [negb].
+      cbn [tb_name tb_cols tb_pk tb_indexes tb_fks tb_checks].
+      rewrite (drop_redundant_segments icols U PlK G (fun i Hi => proj2 (HU i Hi)) (fun i Hi => proj2 (HP i Hi))). fold G'.
+      destruct (segments U PlK G' HU HP HG') as [S1 [S2 S3]].
+      unfold insert_index. cbn [ix_unique]. rewrite S1, S2, S3.
+      rewrite (replace_tb_last t cat (mkMTable t cs pk (U ++ PlK ++ G) fks chk) _ Hcat eq_refl). rewrite <- !app_assoc. reflexivity. }
+    unfold run. cbn [run_from]. rewrite E.
+    assert (R := IH cat cs pk U (PlK ++ [new]) G' fks chk Hcat HU).
+    unfold run in R. erewrite run_from_ok_shift; [reflexivity|].
+    rewrite R; clear R.
+    + cbn [plain_indexes flat_map app plain_cols fold_left]. fold (plain_indexes t r). fold (plain_cols r). fold name. fold new. fold G'.
+      rewrite <- !app_assoc. reflexivity.
+    + intros i Hi. apply in_app_or in Hi. destruct Hi as [Hi|[Hi|[]]]; [apply HP; exact Hi|subst i; split; reflexivity].
+    + exact HG'.
+    + exact Hr.
+    + exact Hdist.
+    + (* the remaining names are still new: not the one just created, and G' is a sublist of G *)
+      apply forallb_forall. intros nm Hnm. rewrite forallb_forall in Hdisj. specialize (Hdisj nm Hnm).
+      apply Bool.negb_true_iff in Hdisj. apply Bool.negb_true_iff.
+      rewrite !map_app, !mem_str_app in *. cbn [map ix_name mem_str existsb] in *.
+      apply Bool.orb_false_iff in Hdisj. destruct Hdisj as [D1 D2]. apply Bool.orb_false_iff in D2. destruct D2 as [D2 D3].
+      rewrite D1, D2. cbn [orb].
+      assert (Ne : String.eqb nm name = false).
+      { destruct (String.eqb nm name) eqn:En; [|reflexivity]. apply String.eqb_eq in En. subst nm.
+        unfold mem_str in Hnew. assert (T : existsb (String.eqb name) (map ix_name (plain_indexes t r)) = true).
+        { apply existsb_exists. exists name. split; [exact Hnm|apply String.eqb_refl]. }
+        rewrite T in Hnew. discriminate. }
+      change (ix_name new) with name. rewrite Ne. cbn [orb].
+      apply mem_names_filter. exact D3.
+    + unfold mem_str in *. cbn [existsb] in Hnp. apply Bool.orb_false_iff in Hnp. apply Hnp.
+    + exact Hauto.
+Qed.
+
+(* ---------- small facts for the main theorem ---------- *)
+Lemma has_table_false_find : forall t s, has_table t s = false -> find_table t s = None.
+Proof.
+  intros t s. unfold has_table, find_table. induction s as [|x r IH]; cbn [existsb find]; intro H; [reflexivity|].
+  apply Bool.orb_false_iff in H. destruct H as [H1 H2]. rewrite H1. apply IH. exact H2.
+Qed.
+
+Lemma nodup_app_l : forall a b, nodup_str (a ++ b) = true -> nodup_str a = true.
+Proof.
+  induction a as [|x r IH]; intros b H; [reflexivity|]. cbn [app nodup_str] in *.
+  apply Bool.andb_true_iff in H. destruct H as [H1 H2]. apply Bool.negb_true_iff in H1. rewrite mem_str_app in H1.
+  apply Bool.orb_false_iff in H1. destruct H1 as [H1 _]. rewrite H1. cbn [negb andb]. eapply IH. exact H2.
+Qed.
+Lemma nodup_app_r : forall a b, nodup_str (a ++ b) = true -> nodup_str b = true.
+Proof.
+  induction a as [|x r IH]; intros b H; [exact H|]. cbn [app nodup_str] in H.
+  apply Bool.andb_true_iff in H. destruct H as [_ H2]. eapply IH. exact H2.
+Qed.
+Lemma nodup_app_disj : forall a b x, nodup_str (a ++ b) = true -> In x b -> mem_str x a = false.
+Proof.
+  induction a as [|y r IH]; intros b x H Hx; [reflexivity|]. cbn [app nodup_str] in H.
+  apply Bool.andb_true_iff in H. destruct H as [H1 H2]. apply Bool.negb_true_iff in H1. rewrite mem_str_app in H1.
+  apply Bool.orb_false_iff in H1. destruct H1 as [_ H1].
+  unfold mem_str. cbn [existsb]. fold (mem_str x r). rewrite (IH b x H2 Hx), Bool.orb_false_r.
+  destruct (String.eqb x y) eqn:E; [|reflexivity]. apply String.eqb_eq in E. subst y.
+  assert (M : mem_str x b = true) by (unfold mem_str; apply existsb_exists; exists x; split; [exact Hx|apply String.eqb_refl]).
+  rewrite M in H1. discriminate.
+Qed.
+
+Lemma generated_names_from_fks : forall nm K fks,
+  mem_str nm (map fk_name fks) = false -> mem_str nm (map ix_name (generated_indexes K fks)) = false.
+Proof.
+  intros nm K fks. revert K. induction fks as [|f r IH]; intros K H; [reflexivity|].
+  unfold mem_str in H. cbn [map existsb] in H. apply Bool.orb_false_iff in H. destruct H as [H1 H2].
+  cbn [generated_indexes]. destruct (nonempty (fk_cols f) && existsb (is_prefix (fk_cols f)) K)%bool; [apply IH; exact H2|].
+  unfold mem_str. cbn [map existsb ix_name]. rewrite H1. cbn [orb]. apply IH. exact H2.
+Qed.
+
+Lemma checks_of_none : forall ks, existsb is_check ks = false -> checks_of ks = [].
+Proof.
+  induction ks as [|k r IH]; intro H; [reflexivity|]. cbn [existsb] in H. apply Bool.orb_false_iff in H. destruct H as [H1 H2].
+  unfold checks_of. cbn [flat_map]. fold (checks_of r). rewrite (IH H2). destruct k; try reflexivity. discriminate.
+Qed.
+
+Lemma cols_exist_names : forall l ks cols,
+  all_cols_exist l (mkMTable "" (map mcol_of_def (map (create_coldef ks) cols)) None [] [] [])
+  = forallb (fun c => mem_str c (map c_name cols)) l.
+Proof.
+  intros l ks cols. unfold all_cols_exist. induction l as [|c r IH]; [reflexivity|]. cbn [forallb]. rewrite IH. f_equal.
+  unfold has_mcol, mem_str. cbn [tb_cols].
+  rewrite !existsb_map. apply existsb_ext_in. intros x _. cbn. apply String.eqb_sym.
+Qed.
+
+(* ---------- CreateTable ---------- *)
+Theorem sim_create_table : forall s a, create_table_sim_hyp s a = true -> action_sim s a.
+Proof.
+  intros s a H s' Ha P. unfold create_table_sim_hyp in H.
+  destruct a as [t cols ks0|tb|tb cl fw|tb f2 t2|tb cn|tb cn ty fw|tb cn nl fw|tb cn nd|tb cn nc|tb k|tb k|f2 t2|sql]; try discriminate.
+  destruct (normalize (mkTable t None cols ks0)) as [n|e] eqn:N; [|discriminate].
+  pose proof (normalize_shape _ _ N) as Hn. cbn [t_name t_description t_columns] in Hn.
+  set (ks := t_constraints n) in *.
+  cbn zeta in H.
+  apply Bool.andb_true_iff in H; destruct H as [H Hauto].
+  apply Bool.andb_true_iff in H; destruct H as [H Hfks].
+  apply Bool.andb_true_iff in H; destruct H as [H Hfkdisj].
+  apply Bool.andb_true_iff in H; destruct H as [H Hnoprim].
+  apply Bool.andb_true_iff in H; destruct H as [H Hnames].
+  apply Bool.andb_true_iff in H; destruct H as [H Hcne].
+  apply Bool.andb_true_iff in H; destruct H as [H Hkv].
+  apply Bool.andb_true_iff in H; destruct H as [H Hnochk].
+  apply Bool.andb_true_iff in H; destruct H as [H Hinl].
+  apply Bool.andb_true_iff in H; destruct H as [H Honepk].
+  apply Bool.andb_true_iff in H; destruct H as [Hnt Hndc].
+  apply Bool.negb_true_iff in Hnt. apply Bool.negb_true_iff in Hnochk. apply Bool.negb_true_iff in Hnoprim.
+  (* the schema after *)
+  cbn [apply_action] in Ha. rewrite Hnt, N in Ha. inversion Ha; subst s'. clear Ha.
+  assert (Cs : catalog_of (s ++ [n]) = catalog_of s ++ [catalog_of_table n]) by (unfold catalog_of; rewrite map_app; reflexivity).
+  (* the statements *)
+  cbn [gen]. unfold gen_create_table. rewrite N. fold ks.
+  assert (Hcn : t_columns n = cols) by (rewrite Hn; reflexivity). rewrite Hcn.
+  eexists. split; [reflexivity|].
+  set (cat := catalog_of s).
+  assert (Hcat : has_tb t cat = false).
+  { unfold has_tb, cat. rewrite find_tb_catalog_of, (has_table_false_find t s Hnt). reflexivity. }
+  set (U := unique_indexes t ks). set (Pl := plain_indexes t ks). set (fks := create_fks t ks).
+  set (pkl := match first_pk ks with Some p => [p] | None => [] end).
+  set (cols1 := map (mk_mcol ks) cols).
+  set (G0 := generated_indexes (pkl ++ map ix_cols U) fks).
+  set (t2 := mkMTable t cols1 (first_pk ks) (U ++ G0) fks []).
+  assert (HU : forall i, In i U -> ix_unique i = true /\ ix_generated i = false) by (intros; eapply unique_indexes_shape; eassumption).
+  assert (HG0 : forall i, In i G0 -> ix_generated i = true) by (intros; eapply generated_all_generated; eassumption).
+  assert (Hnm : nodup_str (map ix_name U ++ map ix_name Pl) = true) by (rewrite <- map_app; exact Hnames).
+  (* CREATE TABLE *)
+  assert (E1 : exec cat (SCreateTable t (map (create_coldef ks) cols) (create_keys t ks) fks []) = Ok (cat ++ [t2])).
+  { cbn [exec]. rewrite Hcat.
+    assert (Hnd2 : nodup_str (map cd_name (map (create_coldef ks) cols)) = true).
+    { rewrite map_map. rewrite (map_ext (fun x => cd_name (create_coldef ks x)) c_name) by (intro; reflexivity). exact Hndc. }
+    rewrite Hnd2. cbn [negb].
+    assert (Hip : filter cd_pk (map (create_coldef ks) cols) = []).
+    { apply filter_none. intros x Hx. apply in_map_iff in Hx. destruct Hx as [c [Hc Ic]]. subst x.
+      rewrite forallb_forall in Hinl. apply Bool.negb_true_iff. apply Hinl. exact Ic. }
+    rewrite Hip. cbn [map app].
+    rewrite (add_keys_gen t ks (map mcol_of_def (map (create_coldef ks) cols)) None []).
+    - cbn [app]. rewrite cols_create. fold cols1. fold U.
+      assert (Hfk2 : add_fks (mkMTable t cols1 (first_pk ks) U [] []) cat fks
+                     = Ok t2).
+      { unfold table_after_keys in Hfks. rewrite Hn in Hfks. cbn [t_name t_constraints] in Hfks. fold ks U in Hfks.
+        change (tb_cols (catalog_of_table (mkTable t None cols ks))) with cols1 in Hfks. fold cat fks in Hfks.
+        destruct (add_fks (mkMTable t cols1 (first_pk ks) U [] []) cat fks) as [tx|ex] eqn:A; [|discriminate].
+        rewrite (add_fks_result _ _ _ _ A). cbn [tb_name tb_cols tb_pk tb_indexes tb_fks tb_checks app].
+        unfold key_col_lists. cbn [tb_pk tb_indexes]. fold pkl. fold G0. reflexivity. }
+      rewrite Hfk2. cbn [add_checks].
+      assert (Hao : auto_ok t2 = true).
+      { unfold t2. eapply auto_by_pk_ok. unfold catalog_of_table in Hauto. rewrite Hn in Hauto. cbn [t_name t_columns t_constraints] in Hauto.
+        fold ks in Hauto. exact Hauto. }
+      rewrite Hao. reflexivity.
+    - intros i [].
+    - exact Honepk.
+    - apply forallb_forall. intros k Ik. rewrite forallb_forall in Hkv. specialize (Hkv k Ik).
+      destruct k; cbn [mkey_valid key_valid] in *; try reflexivity; rewrite cols_exist_names; exact Hkv.
+    - cbn [map app]. eapply nodup_app_l. exact Hnm.
+    - unfold mem_str in *. rewrite map_app, existsb_app in Hnoprim. apply Bool.orb_false_iff in Hnoprim. apply Hnoprim. }
+  (* CREATE INDEX ... *)
+  assert (E2 : run (cat ++ [t2]) (create_indexes t ks)
+               = RunOk (cat ++ [mkMTable t cols1 (first_pk ks)
+                                         (U ++ ([] ++ Pl) ++ fold_left (fun g c => drop_redundant_generated c g) (plain_cols ks) G0) fks []])).
+  { unfold t2. change (U ++ G0) with (U ++ [] ++ G0).
+    apply run_create_indexes; try assumption.
+    - intros i [].
+    - apply forallb_forall. intros k Ik. rewrite forallb_forall in Hkv. specialize (Hkv k Ik).
+      destruct k; cbn [key_valid] in *; try reflexivity.
+      unfold cols1. apply Bool.andb_true_iff in Hkv. destruct Hkv as [K1 K2]. rewrite K1. cbn [andb].
+      unfold all_cols_exist. rewrite forallb_forall in K2. apply forallb_forall. intros c Ic. specialize (K2 c Ic).
+      unfold has_mcol. cbn [tb_cols]. rewrite existsb_map. unfold mem_str in K2. rewrite existsb_map in K2. rewrite <- K2.
+      apply existsb_ext_in. intros x _. rewrite mc_name_mk. apply String.eqb_sym.
+    - eapply nodup_app_r. exact Hnm.
+    - apply forallb_forall. intros nm Inm. apply Bool.negb_true_iff. cbn [app]. rewrite map_app, mem_str_app.
+      rewrite (nodup_app_disj _ _ nm Hnm Inm). cbn [orb].
+      apply generated_names_from_fks. rewrite forallb_forall in Hfkdisj. apply Bool.negb_true_iff. apply Hfkdisj. exact Inm.
+    - unfold mem_str in *. rewrite map_app, existsb_app in Hnoprim. apply Bool.orb_false_iff in Hnoprim. apply Hnoprim.
+    - unfold catalog_of_table in Hauto. rewrite Hn in Hauto. cbn [t_name t_columns t_constraints] in Hauto. fold ks in Hauto.
+      unfold auto_by_pk in *. cbn [tb_cols tb_pk] in *. exact Hauto. }
+  (* the believed table *)
+  assert (Hbel : catalog_of_table n
+                 = mkMTable t cols1 (first_pk ks) (U ++ ([] ++ Pl) ++ fold_left (fun g c => drop_redundant_generated c g) (plain_cols ks) G0) fks []).
+  { rewrite Hn. unfold catalog_of_table. cbn [t_name t_columns t_constraints]. fold ks.
+    change (map (fun c => mkMCol (c_name c) (mysql_type_text (c_type c))
+                            (negb (c_nullable c) || mem_str (c_name c) match first_pk ks with Some p => p | None => [] end)
+                            (option_map (mysql_default_text (c_type c)) (c_default c))
+                            (mem_str (c_name c) (auto_increment_columns ks) && supports_auto_increment (c_type c))) cols)
+      with cols1.
+    fold fks pkl. unfold explicit_indexes. fold U Pl.
+    change (flat_map (fun k => match k with CCheck n0 e => [(n0, e)] | _ => [] end) ks) with (checks_of ks).
+    rewrite (checks_of_none ks Hnochk).
+    rewrite map_app. change (map ix_cols Pl) with (map ix_cols (plain_indexes t ks)). rewrite (plain_cols_map t ks), app_assoc.
+    rewrite (generated_add_keys (plain_cols ks) (pkl ++ map ix_cols U) fks).
+    - fold G0. cbn [app]. rewrite <- app_assoc. reflexivity.
+    - apply forallb_forall. intros f If. unfold fks in If. destruct (in_create_fks _ _ _ If) as [fn [fc [rt [rc [od [ou [Ik Hfe]]]]]]]. subst f.
+      cbn [fk_of_constraint fk_cols]. rewrite forallb_forall in Hcne. specialize (Hcne _ Ik). cbn [constraint_nonempty] in Hcne.
+      apply Bool.andb_true_iff in Hcne. apply Hcne. }
+  unfold run. cbn [run_from]. rewrite E1.
+  unfold run in E2. erewrite run_from_ok_shift; [reflexivity|]. rewrite E2. rewrite Cs, Hbel. reflexivity.
+Qed.
+
+(* ---------- the proved kinds together ---------- *)
+Theorem sim_proved : forall s a, sim_proved_for s a = true -> action_sim s a.
+Proof.
+  intros s a H. destruct a as [tb cols0 ks0|tb|tb cl fw|tb f2 t2|tb cn|tb cn ty fw|tb cn nl fw|tb cn nd|tb cn nc|tb k|tb k|f2 t2|sql];
+    cbn [sim_proved_for] in H; try discriminate.
+  - apply sim_create_table. exact H.
+  - intros s' Ha P. apply Bool.negb_true_iff in H.
+    destruct (sim_delete_table s P tb s' (catalog_of s) eq_refl Ha H) as [st [G R]]. exists st. split; assumption.
+  - apply sim_add_column. exact H.
+  - apply sim_delete_column. exact H.
+  - apply sim_modify_column. exact H.
+  - apply sim_modify_column. exact H.
+  - apply sim_modify_column. exact H.
+  - apply sim_modify_column. exact H.
+  - destruct k; try discriminate.
+    + unfold add_key_full_hyp in H. apply Bool.andb_true_iff in H. destruct H as [H1 H2]. apply sim_add_key; assumption.
+    + apply sim_add_check. exact H.
+    + unfold add_key_full_hyp in H. apply Bool.andb_true_iff in H. destruct H as [H1 H2]. apply sim_add_key; assumption.
+  - destruct k; try discriminate. apply sim_remove_check. exact H.
+  - apply sim_raw_sql.
+Qed.
+
+(* a whole plan of such actions keeps the simulation *)
+Theorem Sim_plan_proved : forall acts s s',
+  (forall i a, nth_error acts i = Some a -> sim_proved_for (schema_at s acts i) a = true) ->
+  apply_all s acts = Ok s' ->
+  exists L, gen_plan s acts = Ok L /\ run (catalog_of s) (List.concat L) = RunOk (catalog_of s').
+Proof.
+  intros acts s s' H. apply Sim_plan. intros i a Hn. apply sim_proved. apply H. exact Hn.
+Qed.
